@@ -192,14 +192,18 @@ def main(ctx, args):
     # ---- decide
     f17 = [k for k in known if k.get("class") == "model-predicted-wasm-closure-record-reuse"]
     known_keys = {("ops", k["ops"]): k for k in known if "ops" in k}
+    known_keys.update({("table", k["table"]): k for k in known if "table" in k and "class" not in k})
     known_hits = collections.Counter()
     fails, disagree = [], []
     for pr in problems:
         if pr["kind"] != "case":
             ctx.violation(f"{pr['kind']} in stream {pr.get('stream')}", pr, found_input=False)
             continue
-        if "ops" in pr and ("ops", pr["ops"]) in known_keys:
-            known_hits[known_keys[("ops", pr["ops"])]["id"]] += 1
+        key = ("ops", pr["ops"]) if "ops" in pr else ("table", pr.get("table"))
+        if key in known_keys:
+            known_hits[known_keys[key]["id"]] += 1
+            if pr.get("level") == "prog":
+                stats["disagreements"] -= 1   # excused input: no model of this defect exists, counted under known findings
             continue
         if pr["level"] == "prog-f17":
             if f17:
